@@ -1,6 +1,7 @@
 #!/bin/sh
 # usage: run_seeded.sh [seeded-name ...]  — applies each seeded patch to /repo, runs the property's quick check, reverts.
 cd /verif
+if [ -n "$(git -C /repo status --porcelain)" ]; then echo "run_seeded: /repo has uncommitted changes; commit them first (the revert step would discard them)"; exit 2; fi
 if [ $# -eq 0 ]; then set -- $(ls seeded); fi
 # evidence files and replays written while a seeded change is applied describe the changed tree: keep the committed ones
 EVB=$(mktemp -d /tmp/evidence-backup-XXXX); cp -r evidence $EVB/ 2>/dev/null
